@@ -256,7 +256,8 @@ def oracle(pred, ref, metric, thr, many, M, M2=None):
     """plain-Python statement of C03 on concrete arrays and the real matcher's assignment M (pred -> ref)."""
     inc = metric != "ASSD"
     Pv, Rv = voxel_sets(pred), voxel_sets(ref)
-    t = Fraction(thr)
+    from .realcommon import thr_frac
+    t = thr_frac(thr)
     beats = (lambda s: s >= t) if inc else (lambda s: s <= t)
     good = (lambda a, b: a >= b) if inc else (lambda a, b: a <= b)
     sc = {(r, p): _score(metric, Rv[r], Pv[p]) for r in Rv for p in Pv if Rv[r] & Pv[p]}
